@@ -515,3 +515,62 @@ def polar_pair(ctx, rule, rels):
                         ctx.ob(rule, f.site, ok, "" if ok else f"`{ast.unparse(c)[:60]}`: {why}", role=f"polar:{cn}", line=c.lineno)
                         break
     return n
+
+
+def _half_block(sub):
+    """(matrix text, row half, column half, N text) of `M[:N, :N]`-style block subscripts; halves are 0 (first) / 1 (second)"""
+    if not isinstance(sub, ast.Subscript) or not isinstance(sub.slice, ast.Tuple) or len(sub.slice.elts) != 2:
+        return None
+    halves, ns = [], []
+    for sl in sub.slice.elts:
+        if not isinstance(sl, ast.Slice) or sl.step is not None:
+            return None
+        if sl.lower is None and sl.upper is not None:
+            halves.append(0); ns.append(ast.unparse(sl.upper))
+        elif sl.upper is None and sl.lower is not None:
+            halves.append(1); ns.append(ast.unparse(sl.lower))
+        else:
+            return None
+    if ns[0] != ns[1]:
+        return None
+    return ast.unparse(sub.value), halves[0], halves[1], ns[0]
+
+
+def unitary_from_symplectic(ctx, rule, rels):
+    """U = X + iY for the orthogonal symplectic [[X, -Y], [Y, X]] (xxpp ordering)"""
+    ctx.explain(f"{rule}: where a unitary is read off an orthogonal symplectic matrix S = [[X, -Y], [Y, X]] as `S[:n, :n] +/- 1j * <block of S>`, "
+                "the sign agrees with the block: `+ 1j * S[n:, :n]` (lower left, Y) or `- 1j * S[:n, n:]` (upper right, -Y). "
+                "The other sign is the complex conjugate unitary: a different interferometer with the same moduli.")
+    from ..dataflow import expand_locals
+    n = 0
+    for rel in rels:
+        for f in ctx.tree.module(rel).functions.values():
+            k = 0
+            for b in walk_no_nested(f.node):
+                if not isinstance(b, ast.BinOp) or not isinstance(b.op, (ast.Add, ast.Sub)):
+                    continue
+                e = expand_locals(f.node, b)
+                if not isinstance(e, ast.BinOp) or not isinstance(e.op, (ast.Add, ast.Sub)):
+                    continue
+                re_, im = e.left, e.right
+                # the imaginary part: 1j * B or B * 1j
+                if not (isinstance(im, ast.BinOp) and isinstance(im.op, ast.Mult)):
+                    continue
+                sides = [im.left, im.right]
+                j = [s for s in sides if isinstance(s, ast.Constant) and isinstance(s.value, complex) and s.value == 1j]
+                blk = [s for s in sides if not (isinstance(s, ast.Constant) and isinstance(s.value, complex))]
+                if len(j) != 1 or len(blk) != 1:
+                    continue
+                A, B = _half_block(re_), _half_block(blk[0])
+                if not A or not B or A[0] != B[0] or A[3] != B[3] or (A[1], A[2]) != (0, 0):
+                    continue
+                if (B[1], B[2]) not in ((1, 0), (0, 1)):
+                    continue
+                n += 1
+                k += 1
+                plus = isinstance(e.op, ast.Add)
+                ok = plus == ((B[1], B[2]) == (1, 0))
+                ctx.ob(rule, f.site, ok, "" if ok else f"`{ast.unparse(e)[:70]}`: the {'lower-left' if B[1] else 'upper-right'} block of an "
+                       f"orthogonal symplectic is {'Y' if B[1] else '-Y'}; with `{'+' if plus else '-'}` this is conj(U), not U",
+                       role=f"block-sign:{k}", line=b.lineno)
+    return n
